@@ -59,7 +59,7 @@ def main(argv):
         if p.returncode:
             print("patch does not apply:", p.stderr)
             return 2
-        if sh(["git", "-C", wt, "diff", "--stat", "--", "pyyeti/rainflow/c_rain.c"]
+        if sh(["git", "-C", wt, "diff", "HEAD", "--stat", "--", "pyyeti/rainflow/c_rain.c"]
               ).stdout.strip():
             for f in os.listdir(os.path.join(wt, "pyyeti", "rainflow")):
                 if f.endswith(".so"):
